@@ -215,8 +215,33 @@ func genClusterTables(repo string) (string, error) {
 		return true
 	})
 	sb.WriteString("(* quantile.E2eProcessingLatencyAggregate.UnmarshalJSON: its loop over the decoded entries (decode_pct) *)\n")
-	sb.WriteString("Definition quantile_unmarshal_loop : list string := " + clu_list(loop) + ".\n")
+	sb.WriteString("Definition quantile_unmarshal_loop : list string := " + clu_list(loop) + ".\n\n")
+	// ... and where the list it fills comes from and goes to
+	var lists []string
+	for _, st := range qt.method("E2eProcessingLatencyAggregate", "UnmarshalJSON").Body.List {
+		if as, ok := st.(*ast.AssignStmt); ok {
+			if t := clu_stmts([]ast.Stmt{as})[0]; strings.Contains(strings.ToLower(t), "percentiles") {
+				lists = append(lists, t)
+			}
+		}
+	}
+	sb.WriteString("(* quantile.E2eProcessingLatencyAggregate.UnmarshalJSON: the assignments of the percentile list around the loop *)\n")
+	sb.WriteString("Definition quantile_unmarshal_lists : list string := " + clu_list(lists) + ".\n")
 	return sb.String(), nil
+}
+
+func clu_expr(e ast.Expr) string {
+	if x, ok := e.(*ast.SliceExpr); ok {
+		lo, hi := "", ""
+		if x.Low != nil {
+			lo = adm_condText(x.Low)
+		}
+		if x.High != nil {
+			hi = adm_condText(x.High)
+		}
+		return adm_condText(x.X) + "[" + lo + ":" + hi + "]"
+	}
+	return adm_condText(e)
 }
 
 // clu_stmts renders statements one per line (blocks bracketed by "... {" and "}")
@@ -225,7 +250,7 @@ func clu_stmts(list []ast.Stmt) []string {
 	exprs := func(es []ast.Expr) string {
 		var p []string
 		for _, e := range es {
-			p = append(p, adm_condText(e))
+			p = append(p, clu_expr(e))
 		}
 		return strings.Join(p, ", ")
 	}
